@@ -9,7 +9,8 @@ PAR = int(os.environ.get('SEED_MATRIX_PAR', '3'))
 ALSO = {'C03-lock-only-around-batch': ['C10'], 'C13-lock-only-around-batch': ['C10'],
         'C03-parse-policy-shared-operation-dict': ['C18'], 'C08-lock-only-around-batch': ['C10'],
         'C03-locate-filters-before-access-check': ['C14'],
-        'C11-lock-only-around-process-batch': ['C10']}
+        'C11-lock-only-around-process-batch': ['C10'],
+        'C05-locate-certificates-match-crypto-filters': ['C14']}
 what = sys.argv[1] if len(sys.argv) > 1 else 'all'
 rows = []
 def run(patch, prop):
